@@ -8,36 +8,6 @@ import pfcp as P
 TARGETS = ["Props/C01.vo", "Run/Eval_L1.vo"]
 
 
-def soak_cases(rng):
-    """-> (name, case, intents, number of probe events at the end)"""
-    out = []
-    for em in (False, True):
-        g = l1.Gen(rng, cfg=l1.default_cfg(end_marker=em))
-        g.setup(0)
-        l = g.establish(0, npairs=1, nqers=1, chv4=False, choose=False)
-        for _ in range(1040):
-            g.modify(l, kind="upd_far_em")
-        g.heartbeat(0)
-        g.setup(1)
-        g.heartbeat(1)
-        g.delete(l)
-        for e in g.events[2:-4]:
-            e["q"] = True
-        out.append((f"1040-end-marker-updates/end_marker={em}", {"cfg": g.cfg, "events": g.events}, g.intents, 4))
-    g = l1.Gen(rng)
-    for _ in range(130):
-        g.heartbeat(0)                # before association: nothing drains the heartbeat reset queue
-    g.setup(0)
-    for _ in range(130):
-        g.heartbeat(0)
-    l = g.establish(0, npairs=1, nqers=1, chv4=False, choose=False)
-    g.delete(l)
-    for e in g.events[:-3]:
-        e["q"] = True
-    out.append(("130-heartbeats-before-and-after-association", {"cfg": g.cfg, "events": g.events}, g.intents, 3))
-    return out
-
-
 def run(tier, seed, replay=None):
     ck = Check("C01", tier, seed)
     ck.trusted = L1_TRUSTED
@@ -90,23 +60,7 @@ def run(tier, seed, replay=None):
                                "impl_event": ob[i] if i < len(ob) else None})
     # "in any association or session state": a state reached by more requests than any queue inside the agent holds
     # (end-marker queue 1024, heartbeat reset queue 100). The requests are valid; the last events are probes.
-    for name, scase, sint, nprobe in soak_cases(rng):
-        try:
-            sob = run_harness(binary, "l1", [scase], tag="c01soak", timeout=900)[0].get("obs", [])
-        except HarnessError as e:
-            ck.fail("soak:harness-died", str(e)[-600:], {"input": {"cfg": scase["cfg"], "events": scase["events"][-8:]}, "soak": name})
-            continue
-        ck.count(["soak", name], True)
-        res = l1.mon_c01(scase, sint, sob)
-        if not res:
-            for i in range(len(sob) - nprobe, len(sob)):
-                if not sob[i].get("replies"):
-                    res.append(("soak:probe-unanswered", f"{name}: probe event {i} got no response after the soak", i))
-                    break
-        for sig, msg, i in res[:1]:
-            ck.fail(f"soak:{name}:{sig}", msg, {"soak": name, "n_events": len(scase["events"]), "impl_event": sob[i] if i < len(sob) else None,
-                                              "input": {"cfg": scase["cfg"], "events": scase["events"][:4] + scase["events"][-6:]}})
-        dist[f"soak/{name}:{'ok' if not res else 'failed'}"] = 1
+    run_soak(ck, binary, rng, lambda c, it, ob: l1.mon_c01(c, it, ob), dist)
     # the model takes the datagram as go-pfcp decodes it, so it is evaluated on mutated and garbage datagrams alike
     sub = list(zip([c[1] for c in cases], obs))
     rng.shuffle(sub)
